@@ -41,10 +41,15 @@ Print Assumptions C02_sound_commitment.
 
 (* Binding.  Two bids that both verify while presenting the same digest carry the same signed
    VALUES -- tx-hash bytes, the amount as an integer (textual spellings of one integer are one
-   value), block number, both timestamps -- or else the two hash computations exhibit two
-   different byte strings with the same image under K.  Hence changing the value of a signed
-   field of a valid bid while keeping its digest (and so its signature) makes verification
-   fail, unless a collision of K is produced. *)
+   value, see C02_alias_amount), block number, both timestamps -- or else K collides on one of
+   the three NAMED pairs of pre-images of the two computations (Eip712.bid_preimage_pairs: the two
+   final 0x1901||domain||struct-hash strings, the two struct encodings, the two tx strings).
+   The pair is exhibited: at the real hash the right disjunct is a concrete Keccak-256 collision
+   between two given strings.  (An anonymous "exists x y, x <> y /\ K x = K y" would be true of
+   every fixed-length hash by pigeonhole and say nothing -- Eip712_proofs.anonymous_collision_is_free;
+   non-vacuity of the named form: Eip712_proofs.named_collision_inhabited.)
+   Hence changing the value of a signed field of a valid bid while keeping its digest (and so its
+   signature) makes verification fail, unless that collision is produced. *)
 Theorem C02_binding_bid : forall (K : bytes -> bytes) (cr : crypto) (b1 b2 : bid) (a1 a2 : bytes),
   (- 2 ^ 63 <= b_bn b1 < 2 ^ 63 /\ - 2 ^ 63 <= b_ds b1 < 2 ^ 63 /\ - 2 ^ 63 <= b_de b1 < 2 ^ 63)%Z ->
   (- 2 ^ 63 <= b_bn b2 < 2 ^ 63 /\ - 2 ^ 63 <= b_ds b2 < 2 ^ 63 /\ - 2 ^ 63 <= b_de b2 < 2 ^ 63)%Z ->
@@ -53,7 +58,7 @@ Theorem C02_binding_bid : forall (K : bytes -> bytes) (cr : crypto) (b1 b2 : bid
   (b_tx b1 = b_tx b2 /\
    (exists A, parse_amount (b_amt b1) = Some A /\ parse_amount (b_amt b2) = Some A) /\
    b_bn b1 = b_bn b2 /\ b_ds b1 = b_ds b2 /\ b_de b1 = b_de b2)
-  \/ (exists x y : bytes, x <> y /\ K x = K y).
+  \/ (exists x y : bytes, In (x, y) (bid_preimage_pairs K b1 b2) /\ x <> y /\ K x = K y).
 Proof. exact verify_bid_binding. Qed.
 Print Assumptions C02_binding_bid.
 
@@ -64,9 +69,10 @@ Theorem C02_digest_determined : forall (K : bytes -> bytes) (cr : crypto) (b1 b2
 Proof. exact verify_bid_digest_determined. Qed.
 Print Assumptions C02_digest_determined.
 
-(* Commitments: same digest => same bid values AND same bid digest bytes AND same bid
-   signature bytes, or a collision.  (Images of K have one length, as Keccak-256's have:
-   Keccak_proofs.keccak256_length.) *)
+(* Commitments: same digest => same bid values AND same bid digest bytes AND same bid signature
+   bytes, or a collision on one of the five named pairs (Eip712.commitment_preimage_pairs: final
+   strings, struct encodings, tx strings, hex of the bid digests, hex of the bid signatures).
+   (Images of K have one length, as Keccak-256's have: Keccak_proofs.keccak256_length.) *)
 Theorem C02_binding_commitment :
   forall (K : bytes -> bytes) (cr : crypto) (klen : nat), (forall m, length (K m) = klen) ->
   forall (c1 c2 : preconf) (b1 b2 : bid) (a1 a2 : bytes),
@@ -81,7 +87,7 @@ Theorem C02_binding_commitment :
     (exists A, parse_amount (b_amt b1) = Some A /\ parse_amount (b_amt b2) = Some A) /\
     b_bn b1 = b_bn b2 /\ b_ds b1 = b_ds b2 /\ b_de b1 = b_de b2) /\
    obytes (b_dig b1) = obytes (b_dig b2) /\ obytes (b_sig b1) = obytes (b_sig b2))
-  \/ (exists x y : bytes, x <> y /\ K x = K y).
+  \/ (exists x y : bytes, In (x, y) (commitment_preimage_pairs K b1 b2) /\ x <> y /\ K x = K y).
 Proof. exact verify_preconf_binding. Qed.
 Print Assumptions C02_binding_commitment.
 
@@ -143,6 +149,93 @@ Theorem C02_verify_stateless :
 Proof. exact session_stateless. Qed.
 Print Assumptions C02_verify_stateless.
 
+(* Documented reading of "field value": these changes of the BYTES of a valid message are not
+   changes of a signed value, and verify exactly as the original does (same address).
+   (a) any other spelling of the same integer amount, e.g. "5", "05", "+5"; "0", "-0"; *)
+Theorem C02_alias_amount : forall (K : bytes -> bytes) (cr : crypto) (b : bid) (amt' : bytes),
+  parse_amount amt' = parse_amount (b_amt b) ->
+  verify_bid K cr (with_amt b amt') = verify_bid K cr b.
+Proof. exact amount_spelling_alias. Qed.
+Print Assumptions C02_alias_amount.
+
+(* (b) the recovery byte 27 for 0 and 28 for 1 (two spellings of one bit). *)
+Theorem C02_alias_v : forall (K : bytes -> bytes) (cr : crypto) (b : bid) (rs : bytes) (v : N),
+  length rs = 64%nat -> (v = 0 \/ v = 1) ->
+  verify_bid K cr (with_sig b (rs ++ [v + 27])) = verify_bid K cr (with_sig b (rs ++ [v])).
+Proof. exact v_spelling_alias. Qed.
+Print Assumptions C02_alias_v.
+
+(* Signature and digest perturbations, through verify_bid itself, for every crypto library that
+   obeys three laws: (L1) the two recovery bits of one (hash, r||s) recover different keys;
+   (L2) if r||s passes the low-S check then r||(n-s) passes it under no key; (L3) one signature
+   recovers different keys from digests that are different scalars; and distinct keys have
+   distinct addresses (truncated hash: outside the proofs).  Then for a bid that verifies to a:
+   (i) the other recovery bit is refused or names another address; (ii) s -> n-s is refused
+   whatever the recovery byte; (iii) digest substitution -- other field values, the digest
+   recomputed for them, the old signature -- is refused or names another address, unless the two
+   digests are one scalar (ECDSA reduces the digest modulo n) or a named pre-image pair collides.
+   An arbitrary change of r or s cannot be excluded by a theorem: another (r,s) accepted for the
+   same key would simply be another valid signature (unforgeability is computational); what IS
+   proved for it is C02_sound_bid -- acceptance means a valid low-S signature of that digest. *)
+Theorem C02_sig_perturbation :
+  forall (K : bytes -> bytes) (cr : crypto) (neg_s : bytes -> bytes) (zn : bytes -> Z),
+  (forall h rs pk pk', length rs = 64%nat ->
+     recover cr h (rs ++ [0]) = Ok pk -> recover cr h (rs ++ [1]) = Ok pk' -> pk <> pk') ->
+  (forall pk pk' h rs, length rs = 64%nat ->
+     verify_rs cr pk h rs = true -> verify_rs cr pk' h (neg_s rs) = false) ->
+  (forall d d' sig pk pk', zn d <> zn d' ->
+     recover cr d sig = Ok pk -> recover cr d' sig = Ok pk' -> pk <> pk') ->
+  (forall p q, addr_of cr p = addr_of cr q -> p = q) ->
+  (forall b rs v v' a a', length rs = 64%nat -> v_to01 v = 0 -> v_to01 v' = 1 ->
+     verify_bid K cr (with_sig b (rs ++ [v])) = Ok a ->
+     verify_bid K cr (with_sig b (rs ++ [v'])) = Ok a' -> a' <> a) /\
+  (forall b rs v v' a, length rs = 64%nat ->
+     verify_bid K cr (with_sig b (rs ++ [v])) = Ok a ->
+     forall a', verify_bid K cr (with_sig b (neg_s rs ++ [v'])) <> Ok a') /\
+  (forall b b' a a' d d',
+     (- 2 ^ 63 <= b_bn b < 2 ^ 63 /\ - 2 ^ 63 <= b_ds b < 2 ^ 63 /\ - 2 ^ 63 <= b_de b < 2 ^ 63)%Z ->
+     (- 2 ^ 63 <= b_bn b' < 2 ^ 63 /\ - 2 ^ 63 <= b_ds b' < 2 ^ 63 /\ - 2 ^ 63 <= b_de b' < 2 ^ 63)%Z ->
+     verify_bid K cr b = Ok a -> verify_bid K cr b' = Ok a' ->
+     b_sig b' = b_sig b -> b_dig b = Some d -> b_dig b' = Some d' ->
+     ~ (b_tx b = b_tx b' /\
+        (exists A, parse_amount (b_amt b) = Some A /\ parse_amount (b_amt b') = Some A) /\
+        b_bn b = b_bn b' /\ b_ds b = b_ds b' /\ b_de b = b_de b') ->
+     a' <> a \/ (d <> d' /\ zn d = zn d') \/
+     (exists x y : bytes, In (x, y) (bid_preimage_pairs K b b') /\ x <> y /\ K x = K y)).
+Proof. exact sig_perturbation_all. Qed.
+Print Assumptions C02_sig_perturbation.
+
+(* The three laws hold for the crypto record of the abstract group (r, s as 32-byte integers, the
+   point of abscissa r and bit v with logarithm lift r v, opposite points for the two bits, keys as
+   logarithms, ECDSA verification = low s and one of the two recoverable keys): so (i)-(iii) hold
+   for verify_bid over that record with no premise on the library left.  Non-vacuity:
+   Signer_proofs.group7_premises, group7_instance (both bits accepted, to different keys;
+   s-negation refused, by evaluation). *)
+Theorem C02_group_perturbation : forall (n : Z), prime n -> (n mod 2 = 1)%Z -> (n < 2 ^ 256)%Z ->
+  forall (rinv_of : Z -> Z), (forall r, (0 < r < n)%Z -> ((r * rinv_of r) mod n = 1)%Z) ->
+  forall (lift : Z -> N -> option Z),
+  (forall r v k, lift r v = Some k -> (0 < k < n)%Z) ->
+  (forall r k k', lift r 0 = Some k -> lift r 1 = Some k' -> (k' = n - k)%Z) ->
+  let cr := group_crypto n rinv_of lift in
+  forall (K : bytes -> bytes),
+  (forall b rs v v' a a', length rs = 64%nat -> v_to01 v = 0 -> v_to01 v' = 1 ->
+     verify_bid K cr (with_sig b (rs ++ [v])) = Ok a ->
+     verify_bid K cr (with_sig b (rs ++ [v'])) = Ok a' -> a' <> a) /\
+  (forall b rs v v' a, length rs = 64%nat ->
+     verify_bid K cr (with_sig b (rs ++ [v])) = Ok a ->
+     forall a', verify_bid K cr (with_sig b (g_neg_s n rs ++ [v'])) <> Ok a').
+Proof. exact group_perturbation_all. Qed.
+Print Assumptions C02_group_perturbation.
+
+(* In the group itself: another digest scalar, or another s, recovers another key. *)
+Theorem C02_malleation_digest_and_s : forall n : Z, prime n -> (n mod 2 = 1)%Z ->
+  forall r rinv : Z, ((r * rinv) mod n = 1)%Z ->
+  (forall z1 z2 s k, recovered n rinv z1 s k = recovered n rinv z2 s k -> (z1 mod n = z2 mod n)%Z) /\
+  (forall z s1 s2 k, (0 < k < n)%Z ->
+     recovered n rinv z s1 k = recovered n rinv z s2 k -> (s1 mod n = s2 mod n)%Z).
+Proof. exact malleation_digest_and_s. Qed.
+Print Assumptions C02_malleation_digest_and_s.
+
 (* Malleation, in an abstract group of odd prime order n with points written as discrete
    logarithms: a signature (r, s, bit) on z determines the point R of abscissa r (logarithm k,
    the bit choosing between R and -R) and recovers the key r^-1 (s R - z G).
@@ -157,7 +250,8 @@ Theorem C02_malleation : forall n : Z, prime n -> (n mod 2 = 1)%Z ->
   recovered n rinv z (n - s) k <> recovered n rinv z s k.
 Proof. exact malleation_all. Qed.
 Print Assumptions C02_malleation.
-(* Outside the proofs: that secp256k1 as implemented by the library IS such a group with
+(* C02_sig_perturbation / C02_group_perturbation above carry these facts to verify_bid.
+   Outside the proofs: that secp256k1 as implemented by the library IS such a group with
    recovery computed as above (the curve arithmetic is not formalised here); that a different
    public key means a different 20-byte address (truncated hash: not a collision of K);
    unforgeability.  The library's actual answers for bit flips and s -> n-s of every generated
